@@ -12,6 +12,7 @@ import json
 import math
 import os
 import random
+import sys
 import traceback
 from collections import Counter
 from dataclasses import dataclass, field
@@ -173,13 +174,21 @@ class Crash(Exception):
     """Raised by scenarios to report an exception coming out of lerax on a legal plan."""
 
 
+def _lerax_src() -> str:
+    """Directory that contains the imported `lerax` package (normally /repo/src; a snapshot when PYTHONPATH says so)."""
+    mod = sys.modules.get("lerax")
+    f = getattr(mod, "__file__", None)
+    return os.path.dirname(os.path.dirname(os.path.abspath(f))) if f else REPO_SRC
+
+
 def lerax_frame(exc: BaseException) -> str | None:
     """Innermost traceback frame located in the lerax sources, as 'file:line:function'."""
     tb = traceback.extract_tb(exc.__traceback__)
     inner = None
+    src = _lerax_src()
     for fr in tb:
-        if fr.filename.startswith(REPO_SRC):
-            inner = f"{os.path.relpath(fr.filename, REPO_SRC)}:{fr.name}"
+        if fr.filename.startswith(src):
+            inner = f"{os.path.relpath(fr.filename, src)}:{fr.name}"
     # chained exceptions (jax re-raises with __cause__)
     cause = exc.__cause__ or exc.__context__
     if inner is None and cause is not None and cause is not exc:
